@@ -67,8 +67,8 @@ def run(c: Check):
     out2, _ = c.go_harness("internal/dnsserver", "^TestVerifC08Sock$", files=["c08_test.go", "c08sock_test.go", "vlab_test.go"],
                            env={"VERIF_SOCK_N": n_sock}, timeout=1500)
     ev2 = read_ndjson(out2)
-    if len(ev) < n_pkg or len(ev2) < n_sock:
-        raise Undecided("harness recorded %d + %d cases, expected %d + %d" % (len(ev), len(ev2), n_pkg, n_sock))
+    if len(ev) < n_pkg or len(ev2) < n_sock + 6:
+        raise Undecided("harness recorded %d + %d cases, expected %d + %d" % (len(ev), len(ev2), n_pkg, n_sock + 6))
     allev = ev + ev2
 
     # ---- vacuity: every class the property quantifies over must have been exercised
@@ -144,13 +144,19 @@ def run(c: Check):
         reasons = re.findall(r'"([^"]+)"', t[2])
         for reason in reasons:
             kind = KIND.get(reason, reason[:40])
-            sig = {"kind": kind, "proto": e["p"], "level": e["src"]}
+            # the signature names the failing case class; transports and levels on
+            # which it was seen are listed in the description
+            sig = {"kind": kind}
             if kind == "opt-echo":
                 sig["handler_opt"] = e["hopt"]
                 sig["reply_size_zero"] = e["osize"] == 0
-            if kind in ("no-reply", "error-reply", "oversize"):
+            elif kind in ("no-reply", "error-reply", "oversize"):
                 sig["late_options"] = late_options(e)
-                sig["limit"] = lim
+                if sig["late_options"] == "none":
+                    sig["proto"] = e["p"]
+                    sig["limit"] = lim
+            else:
+                sig["proto"] = e["p"]
             desc = ("C08 %s/%s %s: %s; request EDNS %s, configured max %d => limit %d; handler response %s "
                     "(%d records, packed %d bytes, OPT %s); complete reply would be %d bytes; observed: replies=%d "
                     "wire=%d attempt=%d rcode=%d TC=%s answers=%d records=%d OPT=%s size=%d version=%d DO=%s padding=%s "
@@ -159,13 +165,16 @@ def run(c: Check):
                         e["hopt"], e["full"], e["nrep"], e["wire"], e["attempt"], e["rcode"], e["tc"], e["an"], e["rec"],
                         e["opt"], e["osize"], e["over"], e["odo"], e["pad"], e["ka"], e["note"]))
             key = json.dumps(sig, sort_keys=True)
+            where = "%s/%s" % (e["src"], e["via"])
             if key in seen:
                 seen[key][0] += 1
+                seen[key][4].add(where)
                 continue
-            seen[key] = [1, sig, desc, {k: v for k, v in e.items() if not k.startswith("_")}]
+            seen[key] = [1, sig, desc, {k: v for k, v in e.items() if not k.startswith("_")}, {where}]
     # one violation per failing case class (signature), with the first concrete case and the number of cases
-    for n, sig, desc, replay in seen.values():
-        c.violation(sig, "%s [%d case(s) of this class in this run]" % (desc, n), replay)
+    for n, sig, desc, replay, where in seen.values():
+        c.violation(sig, "%s [%d case(s) of this class in this run, seen on %s]" % (desc, n, ", ".join(sorted(where))),
+                    replay)
     c.assumptions += ["miekg/dns Pack/Unpack are trusted to measure and decode the replies",
                       "in-package: the DoQ case mirrors the last three statements of ServerQUIC.handleQUICStream "
                       "(normalizeTCP + packWithPrefix); the real DoQ path is exercised at socket level",
